@@ -871,6 +871,18 @@ async fn resolve_delegation(
         {
             return Ok(None);
         }
+        // The Principal who re-delegated has to hold this right now as well. The
+        // recursion below resolves the chain's root delegator only, so without
+        // this an intermediate that has been suspended, revoked or was never
+        // registered kept conferring what it can no longer use itself.
+        let redelegator_is_live = store
+            .governance
+            .find_principal(&delegation.delegator_principal)
+            .await?
+            .is_some_and(|principal| principal.status == status::ACTIVE);
+        if !redelegator_is_live {
+            return Ok(None);
+        }
         let Some(inherited) =
             Box::pin(resolve_delegation(store, space_id, &linked, depth + 1)).await?
         else {
